@@ -190,11 +190,17 @@ class ProgressivelyTerminalDecider(BaseDecider):
                 return target - self.grammar.get_distance_to_terminal(n)
 
         production_weights = self.grammar.get_weights()
-        weights = [w(alt) * production_weights[alt] for alt in alternatives]
+
+        def pw(alt):
+            # alternatives of a Union that are not grammar nodes (list[T], tuple[...], Annotated[...]) carry no
+            # production weight of their own: they count as weight one, like any unweighted production
+            return production_weights.get(alt, 1.0)
+
+        weights = [w(alt) * pw(alt) for alt in alternatives]
         if not any(x > 0 for x in weights):
             # The depth heuristic is zero for every weighted alternative (e.g. all of them are as deep as the
             # deepest node of the grammar): choose by the production weights alone.
-            weights = [production_weights[alt] for alt in alternatives]
+            weights = [pw(alt) for alt in alternatives]
         return self.random.choice_weighted(alternatives, weights)
 
 
